@@ -119,6 +119,7 @@ Print Assumptions C09_eq_only_if_same_peeled.
 Theorem C09_eq_iff_same_peeled s1 s2 a b : Marker s1 = MOk a -> Marker s2 = MOk b -> (marker_eq a b = true <-> peel_top a = peel_top b).
 Proof. exact (MkEqP.Marker_eq_iff_same_peeled s1 s2 a b). Qed.
 Print Assumptions C09_eq_iff_same_peeled.
+(* (definitional: marker_eq is equality of two strings) *)
 Theorem C09_eq_equivalence : (forall a, marker_eq a a = true) /\ (forall a b, marker_eq a b = marker_eq b a) /\
   (forall a b c, marker_eq a b = true -> marker_eq b c = true -> marker_eq a c = true).
 Proof. split; [exact MkEqP.marker_eq_refl | split; [exact MkEqP.marker_eq_sym | exact MkEqP.marker_eq_trans]]. Qed.
@@ -168,7 +169,8 @@ Theorem C09_variant_evaluate_alike t1 t2 m1 m2 defaults ov : parse_marker_nl t1 
   exists a b, Marker t1 = MOk a /\ Marker t2 = MOk b /\ evaluate a defaults ov = evaluate b defaults ov.
 Proof. exact (MkVariantP.variant_evaluate_alike t1 t2 m1 m2 defaults ov). Qed.
 Print Assumptions C09_variant_evaluate_alike.
-(* the constructors the statement names, as derived rules: outer parentheses; a variant step inside a group inside a group *)
+(* the constructors the statement names, as derived rules: outer parentheses; a variant step inside a group inside a group
+   (restates the definition of Variant for the reader; no content of its own) *)
 Theorem C09_variant_rules :
   (forall m, MkVariantP.Variant m [Nested m]) /\
   (forall e, is_bool e = false -> MkVariantP.VarE e (Nested [e])) /\
@@ -192,8 +194,19 @@ Print Assumptions C09_trailing_newline.
 (* 14. the marker attached to a parsed Requirement equals the stand-alone Marker of the same text (composition of the C08 theorem
        C08_marker_is_Marker = ReqTopP.Requirement_marker_is_Marker with the laws above).  sp ranges over every spelled requirement:
        name, optional extras, a version clause list (parenthesised or not) or "@ url", blanks wherever the grammar allows them, and
-       the marker text mt after ";".  The two objects are the same structure: ==, same str, same hash, same evaluation; the str of
-       the requirement's marker reparses to an equal Marker; and the stand-alone text may carry a trailing newline *)
+       the marker text mt after ";".  The content: the requirement's marker IS the Marker of mt, also of mt followed by ONE newline
+       (the newline is appended to the STAND-ALONE text only; Requirement(text + "\n") is not stated - the requirement model has no
+       lemma for it; it is computed on one instance in MkReqP.rx_check and sampled by the stream law-req-prefix), and its str
+       reparses to the peeled structure. *)
+Theorem C09_requirement_marker_core sp mt m : ReqSpec.rq_wf sp (Some m) -> ReqSpec.rs_marker sp = Some mt -> lit_class m = LOk ->
+  exists r a,
+    ReqModel.Requirement (ReqSpec.rq_render sp) = ReqModel.RqOk r /\ ReqModel.q_marker r = Some a /\ Marker mt = MOk a /\
+    Marker (mt ++ [10]) = MOk a /\ Marker (format_marker a) = MOk (peel_top a).
+Proof. exact (MkReqP.requirement_marker_core sp mt m). Qed.
+Print Assumptions C09_requirement_marker_core.
+(* the same spelled out as "equal, same str, same hash, same evaluation".  NOTE: after the conjunct a = b the five conjuncts
+   marker_eq a b, format_marker a = format_marker b, h .. = h .., evaluate a = evaluate b and marker_eq (peel_top b) b are immediate
+   (reflexivity / C09_reparsed_equal); they carry no content beyond C09_requirement_marker_core and are kept for readability only *)
 Theorem C09_requirement_marker_same sp mt m : ReqSpec.rq_wf sp (Some m) -> ReqSpec.rs_marker sp = Some mt -> lit_class m = LOk ->
   exists r a b,
     ReqModel.Requirement (ReqSpec.rq_render sp) = ReqModel.RqOk r /\ ReqModel.q_marker r = Some a /\ Marker mt = MOk b /\
@@ -204,8 +217,14 @@ Theorem C09_requirement_marker_same sp mt m : ReqSpec.rq_wf sp (Some m) -> ReqSp
     Marker (mt ++ [10]) = MOk b.
 Proof. exact (MkReqP.requirement_marker_same sp mt m). Qed.
 Print Assumptions C09_requirement_marker_same.
+(* non-vacuity of 14: a spelled requirement (extras, parenthesised clause list, a marker with a dotted variable and an un-normalised
+   extra name) that satisfies every hypothesis, and the conclusion computed on it *)
+Example C09_requirement_marker_nonvacuous :
+  (exists m, ReqSpec.rq_wf MkReqP.rx_sp (Some m) /\ ReqSpec.rs_marker MkReqP.rx_sp = Some MkReqP.rx_marker_text /\ lit_class m = LOk)
+  /\ MkReqP.rx_check = true.
+Proof. split; [exact MkReqP.requirement_marker_hypotheses | exact MkReqP.rx_nonvacuous]. Qed.
 
-(* non-vacuity of 10-13: closed boolean checks and one explicit Variant derivation (a respelling two groups down, a wrap at depth
+(* non-vacuity of 10-13 (14: see above): closed boolean checks and one explicit Variant derivation (a respelling two groups down, a wrap at depth
    one, outer parentheses) between the structures two concrete texts parse to *)
 Example C09_new_nonvacuous :
   MkEqP.eq_check = true /\ MkVariantP.variant_check = true /\ MkNewlineP.newline_check = true /\
